@@ -298,3 +298,62 @@ def recorded_as_given(ctx):
                    node=call)
     ctx.require(n >= 15, 'T producers not found (%d)' % n)
     return n
+
+
+def attributes_stored_once(ctx, modules, classes=None):
+    """a constructor decides each attribute once: no path through ``__init__`` stores the same
+    attribute of self twice.  A second store is a rewrite of what the first one recorded
+    (``self.op = 'P'`` after ``self.op, self.arg = path.items()[-1]``: the final attribute step of
+    an Assign destination silently becomes a handler lookup)"""
+    p = ctx.program
+    n = 0
+    for u in p.package_units():
+        if u.is_lambda or u.module.short not in modules or u.cls is None or u.name != '__init__':
+            continue
+        if classes is not None and u.cls.name not in classes:
+            continue
+        cfg = ctx.cfg(u)
+        selfn = u.params[0]
+        stores = {}
+        for nd in cfg.nodes:
+            if nd.kind != 'stmt' or not isinstance(nd.ast, (ast.Assign, ast.AugAssign, ast.AnnAssign)):
+                continue
+            tg = nd.ast.targets if isinstance(nd.ast, ast.Assign) else [nd.ast.target]
+            for t in tg:
+                for x in (t.elts if isinstance(t, ast.Tuple) else [t]):
+                    if isinstance(x, ast.Attribute) and is_name(x.value, selfn):
+                        stores.setdefault(x.attr, []).append(nd)
+        for attr, nodes in sorted(stores.items()):
+            n += 1
+            twice = [(a, b) for a in nodes for b in nodes if a is not b and cfg.find_path(a, {b}, labels=lambda l: l != 'exc') is not None]
+            ctx.ob(not twice, u, '%s.%s is decided once' % (u.cls.name, attr),
+                   '' if not twice else 'rewritten after it was stored: %s then %s' % (norm(twice[0][0].ast)[:50], norm(twice[0][1].ast)[:50]),
+                   node=twice[0][1].ast if twice else None)
+    return n
+
+
+def wrappers_forward_their_parameters(ctx, quals):
+    """the module-level / Glommer wrappers of the registration API hand every parameter they
+    accept on to the registry: a parameter that is named in the signature but not forwarded
+    (``def register(target_type, exact=False, **kwargs)`` forwarding only ``**kwargs``) is
+    silently ignored"""
+    p = ctx.program
+    n = 0
+    for q in quals:
+        u = ctx.unit(q)
+        params = [x for x in u.params if x not in ('self',)] + ([u.vararg] if u.vararg else []) + ([u.kwarg] if u.kwarg else [])
+        if u.cls is not None:
+            params = [x for x in params if x != u.params[0]]
+        calls = [c for c in calls_in(u) if isinstance(c.func, ast.Attribute) and c.func.attr in ('register', 'register_op')]
+        ctx.ob(len(calls) == 1, u, '%s forwards to the registry: %s' % (q, [norm(c)[:60] for c in calls]))
+        if len(calls) != 1:
+            continue
+        used = {x.id for x in ast.walk(calls[0]) if isinstance(x, ast.Name)}
+        # a parameter may also reach the call through a local derived from it (exact = kwargs.pop(..))
+        for st in u.own_nodes():
+            if isinstance(st, ast.Assign) and is_name(st.targets[0]) and st.targets[0].id in used:
+                used |= {x.id for x in ast.walk(st.value) if isinstance(x, ast.Name)}
+        for prm in params:
+            n += 1
+            ctx.ob(prm in used, u, '%s passes %s on' % (q, prm), '' if prm in used else 'accepted and ignored', node=calls[0])
+    return n
